@@ -8,6 +8,7 @@ import (
 	"io"
 	"math"
 	"reflect"
+	"sort"
 
 	"github.com/RoaringBitmap/roaring/v2"
 	"github.com/RoaringBitmap/roaring/v2/roaring64"
@@ -289,6 +290,15 @@ func (in *Interp) concU64(v Value, what string) uint64 {
 	panic(fmt.Sprintf("concU64: %T (%s)", v, what))
 }
 
+func basicKind(k reflect.Kind) bool {
+	switch k {
+	case reflect.Bool, reflect.Int, reflect.Int8, reflect.Int16, reflect.Int32, reflect.Int64,
+		reflect.Uint, reflect.Uint8, reflect.Uint16, reflect.Uint32, reflect.Uint64, reflect.Float32, reflect.Float64, reflect.String:
+		return true
+	}
+	return false
+}
+
 func (in *Interp) fromNative(rv reflect.Value) Value {
 	switch rv.Kind() {
 	case reflect.Bool:
@@ -316,7 +326,25 @@ func (in *Interp) fromNative(rv reflect.Value) Value {
 			a[i] = in.fromNative(rv.Index(i))
 		}
 		return Slice{a}
-	case reflect.Ptr, reflect.Map, reflect.Func, reflect.Chan:
+	case reflect.Map:
+		if basicKind(rv.Type().Key().Kind()) && basicKind(rv.Type().Elem().Kind()) {
+			// a map of plain values returned by a native library: becomes an interpreter map (keys in sorted order)
+			if rv.IsNil() {
+				return (*Map)(nil)
+			}
+			keys := rv.MapKeys()
+			sort.Slice(keys, func(i, j int) bool { return fmt.Sprint(keys[i].Interface()) < fmt.Sprint(keys[j].Interface()) })
+			m := NewMap()
+			for _, k := range keys {
+				m.Set(in.fromNative(k), in.fromNative(rv.MapIndex(k)))
+			}
+			return m
+		}
+		if rv.IsNil() {
+			return (*Value)(nil)
+		}
+		return Native{rv.Interface()}
+	case reflect.Ptr, reflect.Func, reflect.Chan:
 		if rv.IsNil() {
 			return (*Value)(nil)
 		}
